@@ -67,6 +67,10 @@ def gen_all(ctx):
         d = d.replace(f'Definition {name}  : R', f'Definition {name} {head} : R')
         out.append(d)
     ctx.gen('PyEval', '\n'.join(out) + '\n')
+    try:
+        gen_loglogit(ctx)        # also for setup.sh (lib/genall.py); run() reports a template mismatch as its own broken tie
+    except Untranslatable:
+        pass
 
 
 LOGLOGIT_TEMPLATE = [
